@@ -736,6 +736,50 @@ def check_dense_nesting(idx: Index, rep: Report) -> None:
             raise AnalysisError(f"{f.fq}: block size `{txt}` of the nested printing not understood")
 
 
+def check_dense_empty(idx: Index, rep: Report) -> None:
+    """The nested printer divides the array length by the leading extent and steps through the array by the block size.
+    For an attribute without elements (`tensor<0x3xi32>`, `tensor<3x0xi32>`) one of the two is zero, so the empty case
+    has to be printed before the nested printer is reached (`dense<>`, which the parser reads back for any shape)."""
+    r = rep.rule("C06.R14", "the nested dense-elements printer (division by the leading extent, range step = block size) is entered only for an attribute with at least one element", floor=1)
+    B = "xdsl/dialects/builtin.py"
+    g = idx.func(B, "DenseIntOrFPElementsAttr._print_dense_list")
+    shp = g.node.args.args[2].arg
+    arr = g.node.args.args[1].arg
+    divides = [n_ for n_ in ast.walk(g.node) if isinstance(n_, ast.BinOp) and isinstance(n_.op, (ast.FloorDiv, ast.Div, ast.Mod)) and unparse(n_.right).startswith(f"{shp}[")]
+    steps = [c for c in calls_in(g.node, local=False) if unparse(c.func) == "range" and len(c.args) == 3 and not isinstance(c.args[2], ast.Constant)]
+    f = idx.func(B, "DenseIntOrFPElementsAttr.print_without_type")
+    calls = [c for c in calls_in(f.node) if call_attr(c) == "_print_dense_list"]
+    if not calls:
+        raise AnalysisError(f"{f.fq}: call of _print_dense_list not found")
+    if not divides and not steps:
+        r.ok(g.fq, f"{g.loc} no division by an extent and no computed range step")
+        return
+    own_guard = [t for t in ast.walk(g.node) if isinstance(t, (ast.If, ast.IfExp)) and re.search(rf"\b({re.escape(arr)}|{re.escape(shp)})\b", unparse(t.test)) and unparse(t.test) != f"len({shp}) > 1"]
+    cfg = CFG(f.node)
+    for c in calls:
+        inst = f"{f.fq}:{c.lineno - f.node.lineno}"
+        nonempty = False
+        for t, pol in guard_facts(f.node, c):
+            e = t
+            while isinstance(e, ast.UnaryOp) and isinstance(e.op, ast.Not):
+                e, pol = e.operand, not pol
+            if isinstance(e, ast.Compare) and len(e.ops) == 1:
+                l, rr = resolved_text(cfg, e.left, cfg.node_of(c)), e.comparators[0]
+                if l in ("len(self)", "len(self.get_values())", "len(self.data.data)", "len(self.data)") and isinstance(rr, ast.Constant) and isinstance(rr.value, int):
+                    v = {ast.Eq: 0 == rr.value, ast.NotEq: 0 != rr.value, ast.Lt: 0 < rr.value, ast.LtE: 0 <= rr.value, ast.Gt: 0 > rr.value, ast.GtE: 0 >= rr.value}.get(type(e.ops[0]))
+                    if v is not None and v != pol:
+                        nonempty = True  # this fact is false for length 0
+            elif resolved_text(cfg, e, cfg.node_of(c)) in ("len(self)", "self.get_values()", "self.data.data") and pol:
+                nonempty = True
+        if nonempty:
+            r.ok(inst, f"{B}:{c.lineno} reached only when the attribute has elements")
+        elif own_guard:
+            raise AnalysisError(f"{g.fq}: the nested printer tests `{unparse(own_guard[0].test)[:60]}` itself; whether that covers the empty attribute is not decided")
+        else:
+            what = f"`{unparse(divides[0])}`" if divides else f"`{unparse(steps[0])}`"
+            r.fail(inst, Finding("C06.R14", f.fq, "empty-reaches-nested-printer", f"`{unparse(c)[:70]}` can be reached with no elements (no fact about the length excludes 0 here), and the nested printer evaluates {what}: for `tensor<0x3xi32>` the leading extent is 0 (ZeroDivisionError), for `tensor<3x0xi32>` the block size is 0 (range() step 0); such an attribute can no longer be printed", f"{B}:{c.lineno}"))
+
+
 def check(idx: Index, rep: Report, tier: str) -> str:
     forms = check_bytes(idx, rep)
     rep.run(check_misc, idx, rep)
@@ -748,6 +792,7 @@ def check(idx: Index, rep: Report, tier: str) -> str:
     rep.run(check_locations, idx, rep)
     rep.run(check_hex_blob, idx, rep)
     rep.run(check_dense_nesting, idx, rep)
+    rep.run(check_dense_empty, idx, rep)
     return (
         "Finite-partition evaluation of the byte escaper over all 256 bytes against the lexer's string regex and decoder "
         "table; guard-exclusion analysis of raw string emission; regular-language inclusion of Python's float format "
